@@ -3,11 +3,20 @@
     (at most one slave, master-only never slave), for every event sequence. *)
 From SV Require Export Port.InvBmca.
 
+(** timestamp contexts and forwarded TLVs are opaque library values handed back
+    by the host: their contents are wire values *)
+Definition ctx_valid (c : ts_context) : Prop :=
+  match c with
+  | CtxSync id | CtxDelayReq id | CtxPDelayReq id => 0 <= id < 65536
+  | CtxPDelayResp id r => 0 <= id < 65536 /\ wf_pi r
+  end.
 Definition event_valid (e : event) : Prop :=
   match e with
   | EvRecvEvent _ f ts => bok f /\ ts_valid ts
   | EvRecvGeneral _ f => bok f
-  | EvSendTimestamp _ _ ts => ts_valid ts
+  | EvSendTimestamp _ c ts => ts_valid ts /\ ctx_valid c
+  | EvAnnounceTimer _ q => Forall (fun f => tlv_wf (fw_tlv f)) q
+  | EvSetClockQuality q => wf_cq q
   | _ => True
   end.
 
@@ -15,11 +24,22 @@ Lemma set_ds_default_inv i dd' :
   inst_inv i ->
   dd_clock_identity dd' = dd_clock_identity (ds_default (i_ds i)) ->
   dd_number_ports dd' = dd_number_ports (ds_default (i_ds i)) ->
+  dd_wfb dd' = true ->
   inst_inv (mkInst (ds_with_default (i_ds i) dd') (i_log_bmca i) (i_ports i)).
 Proof.
-  intros (A & B & C & D & E & F & G) Hc Hn. unfold inst_inv. cbn [i_ports i_ds i_log_bmca].
+  intros (A & [B1 B2] & C & D & E & F & G) Hc Hn Hw. unfold inst_inv. cbn [i_ports i_ds i_log_bmca].
   assert (Hdef : ds_default (ds_with_default (i_ds i) dd') = dd') by reflexivity.
-  rewrite Hdef, Hc, Hn. repeat split; try assumption; apply F.
+  rewrite Hdef, Hc, Hn.
+  split; [exact A|]. split.
+  { split; [exact B1|]. unfold ds_wfb in *. cbn [ds_with_default ds_default ds_steps_removed ds_parent ds_path ds_tp].
+    apply andb_true_iff in B2 as [B2 T]. apply andb_true_iff in B2 as [B2 P]. apply andb_true_iff in B2 as [B2 Q].
+    apply andb_true_iff in B2 as [_ S]. rewrite Hw, S, Q, P, T. reflexivity. }
+  repeat split; try assumption; apply F.
+Qed.
+
+Lemma dd_wfb_of i : inst_inv i -> dd_wfb (ds_default (i_ds i)) = true.
+Proof.
+  intros (_ & [_ B2] & _). unfold ds_wfb in B2. do 4 (apply andb_true_iff in B2 as [B2 _]). exact B2.
 Qed.
 
 Definition turns_on_slave_only (e : event) : Prop := e = EvSetSlaveOnly true.
@@ -28,7 +48,7 @@ Definition slave_only_of (i : instance) : bool := dd_slave_only (ds_default (i_d
 
 (** what one host call guarantees *)
 Definition step_post (i : instance) (e : event) (i' : instance) : Prop :=
-  inst_inv i' /\
+  inst_inv i' /\ cfgs_of i' = cfgs_of i /\
   (~ turns_on_slave_only e -> so_inv i -> so_inv i') /\
   (~ sets_slave_only e -> slave_only_of i' = slave_only_of i) /\
   (e = EvBmca -> slave_only_of i = true -> no_master (i_ports i')).
@@ -38,8 +58,8 @@ Lemma on_port_post i n f e :
   e <> EvBmca -> ~ sets_slave_only e ->
   exists i' o, on_port i n f = Ok (i', o) /\ step_post i e i'.
 Proof.
-  intros Hi Hf Hne Hns. destruct (on_port_ok i n f Hi Hf) as (i' & o & Hs & Hinv & Hdef & Hso).
-  exists i', o. split; [exact Hs|]. split; [exact Hinv|]. split; [|split].
+  intros Hi Hf Hne Hns. destruct (on_port_ok i n f Hi Hf) as (i' & o & Hs & Hinv & Hcf & Hdef & Hso).
+  exists i', o. split; [exact Hs|]. split; [exact Hinv|]. split; [exact Hcf|]. split; [|split].
   - intros _ H Hso'. unfold slave_only_of, so_inv in *. rewrite Hdef in Hso'. apply Hso; [exact Hso'|]. apply H. exact Hso'.
   - intros _. unfold slave_only_of. rewrite Hdef. reflexivity.
   - intros He. contradiction.
@@ -51,32 +71,38 @@ Proof.
   intros Hi He.
   assert (Hset : forall dd', dd_clock_identity dd' = dd_clock_identity (ds_default (i_ds i)) ->
                              dd_number_ports dd' = dd_number_ports (ds_default (i_ds i)) ->
+                             dd_wfb dd' = true ->
                              inst_inv (mkInst (ds_with_default (i_ds i) dd') (i_log_bmca i) (i_ports i))).
   { intros. apply set_ds_default_inv; assumption. }
+  pose proof (dd_wfb_of i Hi) as Hddw.
   destruct e; cbn [step event_valid] in *;
     try (apply on_port_post; [exact Hi| |discriminate|intros [b Hb]; discriminate]).
   - destruct He as [Hf Hts]. intros. apply good_weaken. apply handle_event_receive_ok; assumption.
   - intros. apply good_weaken. apply handle_general_receive_ok; assumption.
-  - intros. apply good_weaken. apply handle_send_timestamp_ok; assumption.
+  - intros. apply good_weaken. apply handle_send_timestamp_ok; try assumption. apply He.
   - intros. apply good_weaken. apply send_announce_ok; assumption.
   - intros. apply good_weaken. apply send_sync_ok; assumption.
   - intros. apply good_weaken. apply send_delay_request_ok; assumption.
   - intros. apply handle_announce_receipt_timer_ok; assumption.
   - intros. apply good_weaken. apply handle_filter_update_timer_ok; assumption.
-  - destruct (bmca_ok i Hi) as (i' & o & Hs & Hinv & Hdef & Hnm). exists i', o. split; [exact Hs|].
-    split; [exact Hinv|]. unfold slave_only_of, so_inv. rewrite Hdef. split; [|split].
+  - destruct (bmca_ok i Hi) as (i' & o & Hs & Hinv & Hdef & Hnm & Hcf & _). exists i', o. split; [exact Hs|].
+    split; [exact Hinv|]. split; [exact Hcf|]. unfold slave_only_of, so_inv. rewrite Hdef. split; [|split].
     + intros _ _ Hso. apply Hnm. exact Hso.
     + intros _. reflexivity.
     + intros _ Hso. apply Hnm. exact Hso.
-  - eexists; eexists. split; [reflexivity|]. unfold set_quality. split; [apply Hset; reflexivity|].
-    split; [|split; [|discriminate]].
+  - eexists; eexists. split; [reflexivity|]. unfold set_quality. split.
+    { apply Hset; try reflexivity. unfold dd_wfb in *. cbn [dd_clock_identity dd_quality dd_prio1 dd_prio2 dd_domain dd_sdo_id].
+      apply andb_true_iff in Hddw as [Hddw S]. apply andb_true_iff in Hddw as [Hddw Dm]. apply andb_true_iff in Hddw as [Hddw P2].
+      apply andb_true_iff in Hddw as [Hddw P1]. apply andb_true_iff in Hddw as [Hddw _].
+      rewrite Hddw, (cq_wfb_of _ He), P1, P2, Dm, S. reflexivity. }
+    split; [reflexivity|]. split; [|split; [|discriminate]].
     + intros _ H. exact H.
     + intros _. reflexivity.
-  - eexists; eexists. split; [reflexivity|]. unfold set_slave_only. split; [apply Hset; reflexivity|].
-    split; [|split; [|discriminate]].
+  - eexists; eexists. split; [reflexivity|]. unfold set_slave_only. split; [apply Hset; try reflexivity; exact Hddw|].
+    split; [reflexivity|]. split; [|split; [|discriminate]].
     + intros Hn H. unfold so_inv. cbn. intros Hb. subst b. exfalso. apply Hn. reflexivity.
     + intros Hn. exfalso. apply Hn. exists b. reflexivity.
-  - eexists; eexists. split; [reflexivity|]. split; [exact Hi|]. split; [auto|]. split; [auto|discriminate].
+  - eexists; eexists. split; [reflexivity|]. split; [exact Hi|]. split; [reflexivity|]. split; [auto|]. split; [auto|discriminate].
 Qed.
 
 Theorem run_state_ok es : forall i,
@@ -115,7 +141,7 @@ Proof.
   induction es as [|e es IH]; intros i i' Hi Hso Hes Hoff Hr; cbn [run_state] in Hr.
   - inversion Hr; subst. exact Hso.
   - inversion Hes; subst. inversion Hoff; subst.
-    destruct (step_ok i e Hi) as (i1 & o & Hs & Hi1 & Hso1 & _); [assumption|]. rewrite Hs in Hr.
+    destruct (step_ok i e Hi) as (i1 & o & Hs & Hi1 & _ & Hso1 & _); [assumption|]. rewrite Hs in Hr.
     eapply IH; eauto.
 Qed.
 
@@ -127,7 +153,7 @@ Proof.
   induction es as [|e es IH]; intros i i' Hi Hes Hoff Hr; cbn [run_state] in Hr.
   - inversion Hr; subst. reflexivity.
   - inversion Hes; subst. inversion Hoff; subst.
-    destruct (step_ok i e Hi) as (i1 & o & Hs & Hi1 & _ & Hkeep & _); [assumption|]. rewrite Hs in Hr.
+    destruct (step_ok i e Hi) as (i1 & o & Hs & Hi1 & _ & _ & Hkeep & _); [assumption|]. rewrite Hs in Hr.
     rewrite (IH i1 i' Hi1) by assumption. apply Hkeep. assumption.
 Qed.
 
@@ -140,7 +166,7 @@ Theorem slave_only_switch_on i i1 o1 es i2 :
   no_master (i_ports i1) /\ so_inv i2.
 Proof.
   intros Hi Hso Hs Hes Hoff Hr.
-  destruct (step_ok i EvBmca Hi I) as (i1' & o' & Hs' & Hi1 & _ & _ & Hnm). rewrite Hs in Hs'. inversion Hs'; subst i1' o'.
+  destruct (step_ok i EvBmca Hi I) as (i1' & o' & Hs' & Hi1 & _ & _ & _ & Hnm). rewrite Hs in Hs'. inversion Hs'; subst i1' o'.
   specialize (Hnm eq_refl Hso). split; [exact Hnm|].
   eapply slave_only_never_master; [exact Hi1| |exact Hes|exact Hoff|exact Hr]. intros _. exact Hnm.
 Qed.
@@ -173,8 +199,17 @@ Proof.
   intros (A & B & C & D & E & F & G & K) Hc Hn. unfold add_port.
   rewrite chk_u_ok by (change (2 ^ 16) with 65536; lia). cbn [obind].
   set (p0 := mkPort c _ PListening [] None 0 0 0 0 None PDEmpty rng).
+  assert (Hddw : dd_wfb (ds_default (i_ds i)) = true).
+  { destruct B as [_ B2]. unfold ds_wfb in B2. do 4 (apply andb_true_iff in B2 as [B2 _]). exact B2. }
   assert (Hp0 : port_inv p0).
-  { unfold port_inv, p0. cbn. repeat split; try exact I; try apply Hc; try constructor; auto. }
+  { unfold port_inv, p0. cbn [p_config p_state p_peer p_mean_delay p_identity p_fml].
+    split; [exact Hc|]. split; [exact I|]. split; [exact I|]. split; [exact I|].
+    split; [split; constructor|]. split; [reflexivity|].
+    unfold port_wfb. cbn [p_identity pi_clock pi_port p_seq_announce p_seq_sync p_seq_delay p_seq_pdelay].
+    unfold dd_wfb in Hddw. do 5 (apply andb_true_iff in Hddw as [Hddw _]). rewrite Hddw.
+    assert (H1 : (1 <=? dd_number_ports (ds_default (i_ds i)) + 1) = true) by lia.
+    assert (H2 : (dd_number_ports (ds_default (i_ds i)) + 1 <? 65536) = true) by lia.
+    rewrite H1, H2. reflexivity. }
   pose proof (port_inv_draw _ Hp0) as Hp1. pose proof (pres_draw p0) as (Hid & Hcfg & Hns & Hnm).
   destruct (draw p0) as [k p1]. cbn [snd] in *.
   destruct (announce_interval_ti_ok (pc_log_announce c)) as [t ->]; [apply Hc|]. cbn [obind].
@@ -183,7 +218,16 @@ Proof.
   assert (Hdef : forall dd', ds_default (ds_with_default (i_ds i) dd') = dd') by reflexivity.
   rewrite Hdef. cbn [dd_clock_identity dd_number_ports].
   split; [apply Forall_app; split; [exact A|constructor; [exact Hp1|constructor]]|].
-  split; [exact B|].
+  split.
+  { destruct B as [B1 B2]. split; [exact B1|]. unfold ds_wfb in *.
+    cbn [ds_with_default ds_default ds_steps_removed ds_parent ds_path ds_tp].
+    apply andb_true_iff in B2 as [B2 T]. apply andb_true_iff in B2 as [B2 P]. apply andb_true_iff in B2 as [B2 Q].
+    apply andb_true_iff in B2 as [_ S].
+    assert (Hw' : dd_wfb (mkDD (dd_clock_identity (ds_default (i_ds i))) (dd_number_ports (ds_default (i_ds i)) + 1)
+                               (dd_quality (ds_default (i_ds i))) (dd_prio1 (ds_default (i_ds i)))
+                               (dd_prio2 (ds_default (i_ds i))) (dd_domain (ds_default (i_ds i)))
+                               (dd_slave_only (ds_default (i_ds i))) (dd_sdo_id (ds_default (i_ds i)))) = true) by exact Hddw.
+    rewrite Hw', S, Q, P, T. reflexivity. }
   split.
   { intros n q Hq. destruct (Nat.lt_ge_cases n (length (i_ports i))) as [Hlt|Hge].
     - rewrite nth_error_app1 in Hq by exact Hlt. apply C. exact Hq.
@@ -200,8 +244,14 @@ Proof.
   - apply Forall_app. split; [exact K|]. constructor; [exact (Hnm eq_refl)|constructor].
 Qed.
 
+(** the instance configuration and the initial time properties are wire values *)
+Definition config_wfb (c : instance_config) (tp : time_props) : bool :=
+  u_ok 64 (ic_clock_identity c) && cq_wfb (ic_quality c) && u_ok 8 (ic_prio1 c) && u_ok 8 (ic_prio2 c)
+  && u_ok 8 (ic_domain c) && u_ok 12 (ic_sdo_id c) && tp_wfb tp.
+
 Definition setup_valid (s : setup) : Prop :=
-  Forall (fun x => cfg_ok (fst x)) (su_ports s) /\ su_ports s <> [] /\ Z.of_nat (length (su_ports s)) < 65535.
+  Forall (fun x => cfg_ok (fst x)) (su_ports s) /\ su_ports s <> [] /\ Z.of_nat (length (su_ports s)) < 65535
+  /\ config_wfb (su_config s) (su_tp s) = true.
 
 Lemma add_ports_ok ps : forall i acc,
   inst_inv0 i -> Forall (fun x => cfg_ok (fst x)) ps -> Z.of_nat (length (i_ports i) + length ps) < 65536 ->
@@ -218,10 +268,16 @@ Qed.
 
 Theorem init_ok s : setup_valid s -> exists i o, init s = Ok (i, o) /\ inst_inv i /\ no_master (i_ports i).
 Proof.
-  intros (Hc & Hne & Hlen). unfold init.
+  intros (Hc & Hne & Hlen & Hcw). unfold init.
   assert (H0 : inst_inv0 (new_instance (su_config s) (su_tp s))).
   { unfold inst_inv0, new_instance. cbn [i_ports i_ds i_log_bmca ds_default dd_clock_identity dd_number_ports].
-    split; [constructor|]. split; [unfold ds_inv; cbn; lia|].
+    split; [constructor|]. split.
+    { split; [cbn; lia|]. unfold config_wfb in Hcw.
+      apply andb_true_iff in Hcw as [Hcw T]. apply andb_true_iff in Hcw as [Hcw S]. apply andb_true_iff in Hcw as [Hcw Dm].
+      apply andb_true_iff in Hcw as [Hcw P2]. apply andb_true_iff in Hcw as [Hcw P1]. apply andb_true_iff in Hcw as [Hcw Q].
+      unfold ds_wfb, dd_wfb, pd_wfb. cbn [ds_default ds_steps_removed ds_parent ds_path ds_tp dd_clock_identity dd_quality
+        dd_prio1 dd_prio2 dd_domain dd_sdo_id pd_parent pd_gm_identity pd_gm_quality pd_gm_prio1 pd_gm_prio2 pi_clock pi_port forallb].
+      rewrite Hcw, Q, P1, P2, Dm, S, T. reflexivity. }
     split; [intros n p Hn; destruct n; discriminate|].
     split; [reflexivity|]. split; [congruence|]. split; [lia|]. split; [reflexivity|constructor]. }
   destruct (add_ports_ok (su_ports s) _ [] H0 Hc) as (i & o & -> & (A & B & C & D & E & F & G & K) & Hl); [cbn; lia|].
@@ -229,8 +285,8 @@ Proof.
   assert (Hne' : i_ports i <> []).
   { intros Hnil. rewrite Hnil in Hl. cbn in Hl. destruct (su_ports s); [congruence|discriminate]. }
   split; [|exact K].
-  unfold inst_inv. repeat split; try assumption; try (apply E; exact Hne'); try lia.
-  destruct (i_ports i); [congruence|cbn; lia].
+  unfold inst_inv. split; [exact A|]. split; [exact B|]. split; [exact C|]. split; [exact D|].
+  split; [destruct (i_ports i); [congruence|cbn; lia]|]. split; [apply E; exact Hne'|]. rewrite G. lia.
 Qed.
 
 (** Whole-life statement: from any valid set-up, any valid event sequence *)
@@ -262,7 +318,7 @@ Example setup_valid_example :
                          EvAnnounceTimer 0 []; EvBmca; EvSetSlaveOnly true; EvTick 5].
 Proof.
   split.
-  - unfold setup_valid. cbn [su_ports length]. split; [|split; [discriminate|lia]].
+  - unfold setup_valid. cbn [su_ports length]. split; [|split; [discriminate|split; [lia|vm_compute; reflexivity]]].
     repeat constructor; cbn; lia.
   - repeat constructor; cbn; try lia; unfold ts_valid, FRAC; lia.
 Qed.
